@@ -14,7 +14,7 @@ RULE = (
     'enumerated family (144 scenarios) covers the shape "awaiter cut off by its timeout while two handlers of the awaited event are in flight on a parallel bus". '
     'Non-trivial = some bus had >= 2 accepted-but-not-started events at once; distinct by canonical JSON.'
 )
-ASSUMPTIONS = ['virtual time; harness-side lineage (who dispatched what) is used, not event_children', 'a handler cut off by a timeout counts as running until its coroutine has finished unwinding', 'no stop / capacity overflow']
+ASSUMPTIONS = ['virtual time; harness-side lineage (who dispatched what) is used, not event_children', 'a handler cut off by a timeout counts as running until its coroutine has finished unwinding', 'no capacity overflow; stop() only in a dedicated sub-family, where the stopped bus itself is not judged']
 
 from hypothesis import strategies as _st
 
@@ -37,7 +37,11 @@ def budget(tier):
 def strategy(tier):
     from bvt.props._scen import mixed
 
-    return _st.integers(0, 3).flatmap(lambda k: scenario(P_CUT) if k == 0 else mixed(scenario(P), tier, ID))
+    from bvt.props._scen import with_stop
+
+    # one case in six: an actor stops one of the buses (possibly while its run loop is queued for the global lock); the order and
+    # seriality of the buses that were NOT stopped must be unaffected
+    return _st.integers(0, 5).flatmap(lambda k: scenario(P_CUT) if k == 0 else (with_stop(scenario(P_STOP), 1) if k == 1 else mixed(scenario(P), tier, ID)))
 
 
 @_st.composite
@@ -76,6 +80,10 @@ def enumerate_cases(tier, seed):
             'actors': [[['disp', 0, 0], ['sleep', 0.01], ['disp', target, 3], ['disp', target, 3]]],
             'maxdepth': 2, 'cap': 40, 'warm': warm, 'timeouts': {'0': T0},
         }
+
+
+P_STOP = Profile(probe=True, min_buses=2, max_buses=3, actor_ops=['disp', 'burst', 'burst', 'dispany', 'sleep', 'await', 'yield'], max_actor_ops=5, raises=0.05, maxdepth=[2], wild=0.2, fwd=0.2,
+                 modes=['await', 'await', 'later', 'ff'], durs=[0.05, 0.1, 0.25, 0.5, 1.0])
 
 
 def nontrivial(F):
